@@ -7,6 +7,7 @@ mod history;
 mod io;
 mod kdbx;
 mod keyop;
+mod legacy;
 mod merge;
 mod panicx;
 mod probe;
@@ -14,6 +15,7 @@ mod totp;
 mod rng;
 mod saveop;
 mod tree;
+mod xmlgen;
 
 use rng::Rng;
 use serde_json::Value as J;
@@ -134,6 +136,10 @@ fn main() {
         "frame-cred" => frame::run_cred(&mut ctx),
         "frame-tamper" => frame::run_tamper(&mut ctx),
         "frame-fuzz" => frame::run_fuzz4(&mut ctx),
+        "surface" => legacy::run_surface(&mut ctx),
+        "legacy-wf" => legacy::run_wf(&mut ctx),
+        "legacy-cred" => legacy::run_cred(&mut ctx),
+        "legacy-fuzz" => legacy::run_fuzz(&mut ctx),
         "selftest" => ctx.emit(serde_json::json!({"op": "selftest", "real": {"vectors": []}})),
         _ => {
             eprintln!("unknown op {}", op);
